@@ -849,9 +849,6 @@ class Orientation(Misorientation):
         `dp = dparr.compute()`.
         """
         symmetry = _get_unique_symmetry_elements(other.symmetry, self.symmetry)
-        # As in Rotation.dot_outer(), improper symmetry elements do not
-        # relate two (proper) orientations
-        symmetry = symmetry[~symmetry.improper]
         M = other._outer_dask(~self, chunk_size=chunk_size)
 
         # Summation subscripts
@@ -861,8 +858,17 @@ class Orientation(Misorientation):
 
         warnings.filterwarnings("ignore", category=da.PerformanceWarning)
 
-        all_dot_products = da.einsum(sum_over, M, symmetry.data)
-        highest_dot_product = da.max(abs(all_dot_products), axis=-1)
+        all_dot_products = abs(da.einsum(sum_over, M, symmetry.data))
+
+        # As in Rotation.dot_outer(), a symmetry element only relates
+        # two orientations if it is improper exactly when the
+        # misorientation between them is
+        improper = np.logical_xor.outer(other.improper, self.improper)
+        improper = da.from_array(improper, chunks=M.chunks[:-1])
+        is_related = improper[..., np.newaxis] == symmetry.improper
+        all_dot_products = da.where(is_related, all_dot_products, 0)
+
+        highest_dot_product = da.max(all_dot_products, axis=-1)
 
         # Index the result as self.shape + other.shape, as dot_outer() does
         order = tuple(range(other.ndim, other.ndim + self.ndim)) + tuple(
